@@ -22,8 +22,13 @@ REWRITES = {
     "director/forward/forward.go": [
         ("net.Dial(", "VerifDial(", 1),
     ],
+    # the token writer: whichever of these spellings the file uses gets crash points (at least one must be present)
     "server/options.go": [
-        ("ioutil.WriteFile(", "VerifWriteFile(", 1),
+        ("ioutil.WriteFile(", "VerifWriteFile(", 0),
+        ("os.WriteFile(", "VerifWriteFile(", 0),
+        ("os.OpenFile(", "VerifOpenFile(", 0),
+        ("os.Create(", "VerifCreate(", 0),
+        ("os.Rename(", "VerifRename(", 0),
     ],
     "services/ssh/storage.go": [("s.Set(", "VerifSet(s, ", 1)],
     "services/ftp/storage.go": [("s.Set(", "VerifSet(s, ", 2)],
@@ -96,12 +101,18 @@ def generate(outdir):
             text = open(src, encoding="utf-8").read()
         except OSError as e:
             raise AnchorError("seam file missing: %s (%s)" % (src, e))
+        found_any = False
         for tok, repl, want in rules:
             got = text.count(tok)
             if got < 1:
+                if want == 0:
+                    continue  # optional spelling
                 raise AnchorError("seam anchor %r not found in %s" % (tok, src))
+            found_any = True
             # every occurrence goes through the seam (a tree edit may add call sites)
             text = text.replace(tok, repl)
+        if not found_any:
+            raise AnchorError("none of the seam anchors %r found in %s" % ([r[0] for r in rules], src))
         dst = os.path.join(outdir, rel.replace("/", "__"))
         with open(dst, "w", encoding="utf-8") as f:
             f.write(text)
